@@ -40,6 +40,10 @@ class GoVerifier(GoExec, SpecMixin, CallsMixin, StmtsMixin, LibMixin):
         return None
 
     def verify_function(self, key):
+        if not getattr(self, '_globals_scanned', False):
+            self._globals_scanned = True
+            for k, d in self.funcs.items():
+                self.number_loops(d)
         decl = self.funcs.get(key)
         c = self.contracts.get(key)
         if decl is None:
